@@ -396,12 +396,24 @@ AddCnt(cnts, sp, sc, dp, dc) ==
       on  == IF old = {} THEN 0 ELSE (CHOOSE e \in old : TRUE).n
   IN (cnts \ old) \cup {[sp |-> sp, sc |-> sc, dp |-> dp, dc |-> dc, n |-> on + 1]}
 
+\* SaturatedStats (a deliberate deviation, modelled as the code does it): BIG stands for the maximum of
+\* the stored type - 2^64-1 for a count, 2^256-1 for a total (reachable through a validated genesis, or
+\* by cumulative traffic).  An addition that would exceed it FAILS, the failure is tolerated by the
+\* dispatcher (the transfer goes on), and whatever the statistics update had already written stays:
+\* totals are written entry by entry (received denom first), the count last.
+AmtOverflows(amts, key, i, o) == \E e \in amts : AmtKeyOf(e) = key /\ ((i > 0 /\ e.in >= BIG) \/ (o > 0 /\ e.out >= BIG))
+CntStep(s, sp, sc, dp, dc) ==
+  IF \E e \in s.cnt : CntKeyOf(e) = <<sp, sc, dp, dc>> /\ e.n >= BIG THEN s
+  ELSE [s EXCEPT !.cnt = AddCnt(s.cnt, sp, sc, dp, dc)]
 \* one successful transfer: received coin cin from (sp, sc), forwarded coin cout to (dp, dc)
 AddTransfer(s, sp, sc, dp, dc, cin, cout) ==
-  LET a1 == IF cin.d = cout.d
-            THEN AddAmt(s.amt, sp, sc, dp, dc, cin.d, cin.n, cout.n)
-            ELSE AddAmt(AddAmt(s.amt, sp, sc, dp, dc, cin.d, cin.n, 0), sp, sc, dp, dc, cout.d, 0, cout.n)
-  IN [s EXCEPT !.amt = a1, !.cnt = AddCnt(s.cnt, sp, sc, dp, dc)]
+  IF cin.d = cout.d
+  THEN IF AmtOverflows(s.amt, <<sp, sc, dp, dc, cin.d>>, cin.n, cout.n) THEN s
+       ELSE CntStep([s EXCEPT !.amt = AddAmt(s.amt, sp, sc, dp, dc, cin.d, cin.n, cout.n)], sp, sc, dp, dc)
+  ELSE IF AmtOverflows(s.amt, <<sp, sc, dp, dc, cin.d>>, cin.n, 0) THEN s
+       ELSE LET a1 == AddAmt(s.amt, sp, sc, dp, dc, cin.d, cin.n, 0) IN
+            IF AmtOverflows(a1, <<sp, sc, dp, dc, cout.d>>, 0, cout.n) THEN [s EXCEPT !.amt = a1]
+            ELSE CntStep([s EXCEPT !.amt = AddAmt(a1, sp, sc, dp, dc, cout.d, 0, cout.n)], sp, sc, dp, dc)
 
 -----------------------------------------------------------------------------
 (* Receiving a packet                                                      *)
